@@ -7,5 +7,4 @@
 //@pin file=lrlex/src/lib/parser.rs fn=add_duplicate_occurrence sha=b02837fbe7096836
 //@pin file=lrlex/src/lib/parser.rs fn=get_start_state_by_name sha=cd400f97ff97934b
 //@pin file=lrlex/src/lib/parser.rs fn=matches_whitespace sha=b207bc6cc0894cff
-//@pin file=lrlex/src/lib/lexer.rs fn=from_rules sha=e07172e5756578bd
 //@use prelude/tail.rs
